@@ -201,7 +201,15 @@ fn c14_value(ctx: &Ctx, key: u32, gen: u32, with_panics: bool) {
     // Eq / Hash: equal to its reconstruction, unequal to every single-field neighbour
     let same = EntityAny::from_raw(e.raw()).unwrap();
     chk!(ctx, same == e && h1(&same) == h1(&e) && h2(&same) == h2(&e), "C14", "eq-hash", inp, "a handle and its reconstruction differ in ==/hash");
-    for (k2, g2) in [(key ^ 1, gen), (key ^ 0x100, gen), (key ^ 0x8000_0000, gen), (key, gen ^ 1), (key, gen ^ 0x8000_0000), (gen, key)] {
+    let mut neighbours: Vec<(u32, u32)> = vec![(key ^ 1, gen), (key ^ 0x80, gen), (key ^ 0x100, gen), (key ^ 0x8000_0000, gen), (key, gen ^ 1), (key, gen ^ 0x8000_0000), (gen, key)];
+    if with_panics {
+        // boundary mode: every single-bit neighbour of both words
+        for b in 0..32 {
+            neighbours.push((key ^ (1 << b), gen));
+            neighbours.push((key, gen ^ (1 << b)));
+        }
+    }
+    for (k2, g2) in neighbours {
         if g2 != 0 && (k2, g2) != (key, gen) {
             let o = EntityAny::from_raw((k2, g2)).unwrap();
             chk!(ctx, o != e, "C14", "distinct-bits-compare-equal", inp, "{:?} == {:?}", e, o);
@@ -250,10 +258,28 @@ where
         let o = gecs::__internal::new_entity_direct::<A>(idx - 1, ver);
         chk!(ctx, o != t && o.into_any() != any, "C14", "distinct-bits-compare-equal", inp, "direct handles with different indices compare equal");
     }
+    for b in [0usize, 7, 8, 15, 16, 23] {
+        let i2 = idx ^ (1 << b);
+        if i2 != idx && i2 < (1 << 24) {
+            let o = gecs::__internal::new_entity_direct::<A>(i2, ver);
+            chk!(ctx, o != t && o.into_any() != any, "C14", "distinct-bits-compare-equal", inp, "direct handles with different indices compare equal: {:?} {:?}", o, t);
+        }
+    }
+    // single-field neighbours in the other two fields: another archetype version, another archetype
+    for v2 in [1u32, 2, 0x8000_0000, u32::MAX] {
+        let o = gecs::__internal::new_entity_direct::<A>(idx, version_of(v2));
+        if version_of(v2) != ver {
+            chk!(ctx, o != t && o.into_any() != any, "C14", "distinct-bits-compare-equal", inp, "direct handles with different versions compare equal: {:?} {:?}", o, t);
+        } else {
+            chk!(ctx, o == t && o.into_any() == any && h1(&o.into_any()) == h1(&any) && h2(&o) == h2(&t), "C14", "direct-eq-hash", inp, "equal direct handles differ in ==/hash");
+        }
+    }
     macro_rules! other {
         ($B:ident) => {
             if $B::ARCHETYPE_ID != A::ARCHETYPE_ID {
                 chk!(ctx, EntityDirect::<$B>::try_from(any) == Err(EcsError::InvalidEntityType), "C14", "direct-try-from-accepts-mismatch", inp, "EntityDirect::<id {}>::try_from({:?}) succeeded", $B::ARCHETYPE_ID, any);
+                let o = gecs::__internal::new_entity_direct::<$B>(idx, ver).into_any();
+                chk!(ctx, o != any && !(o == any), "C14", "distinct-bits-compare-equal", inp, "dynamic direct handles of different archetypes compare equal: {:?} {:?}", o, any);
             }
         };
     }
